@@ -144,6 +144,14 @@ DocSingletonAmbiguous(P, S, r, n, leaving) ==
      \/ /\ KidsOfKind(P, S, r, P.kind[n]) # {}
         /\ KidsOfKind(P, S, r, P.kind[n]) \ {n, leaving} = {}
 
+\* An element put in front of the document type declaration gives a document that cannot be written out (XML 1.0 [1],
+\* [22]: the DOCTYPE precedes the document element); DOM Level 1 does not speak of it, so an implementation may
+\* insert (and C15 then has something to say) or refuse with HIERARCHY_REQUEST.
+PosIn(s, x) == CHOOSE i \in 1..Len(s) : s[i] = x
+BeforeDoctype(P, S, r, n, ref) ==
+  /\ P.kind[r] = "doc" /\ P.kind[n] = "elem" /\ ref # None /\ ref \in Range(S.kids[r])
+  /\ \E d \in Range(S.kids[r]) : P.kind[d] = "doctype" /\ PosIn(S.kids[r], ref) <= PosIn(S.kids[r], d)
+
 OutcomeX(P, S, par, own_, c) ==
   CASE c.op = "append_child" ->
          LET e == InsertErrs(P, S, par, c.r, c.n, None, None)
@@ -151,13 +159,13 @@ OutcomeX(P, S, par, own_, c) ==
          IN [errs |-> e \cup (IF amb THEN {HIER} ELSE {}), ok |-> e = {}, any |-> FALSE]
     [] c.op = "insert_before" ->
          LET e == InsertErrs(P, S, par, c.r, c.n, c.ref, None)
-             amb == DocSingletonAmbiguous(P, S, c.r, c.n, None)
+             amb == DocSingletonAmbiguous(P, S, c.r, c.n, None) \/ BeforeDoctype(P, S, c.r, c.n, c.ref)
          IN [errs |-> e \cup (IF amb THEN {HIER} ELSE {}), ok |-> e = {}, any |-> c.n = c.ref]
     [] c.op = "replace_child" ->
          LET e == InsertErrs(P, S, par, c.r, c.n, c.old, c.old)
                     \cup (IF c.old \notin Range(S.kids[c.r]) THEN {NOTFOUND} ELSE {})
                     \cup (IF ~IsContainer(P, c.r) THEN {HIER} ELSE {})
-             amb == DocSingletonAmbiguous(P, S, c.r, c.n, c.old)
+             amb == DocSingletonAmbiguous(P, S, c.r, c.n, c.old) \/ BeforeDoctype(P, S, c.r, c.n, c.old)
          IN [errs |-> e \cup (IF amb THEN {HIER} ELSE {}), ok |-> e = {}, any |-> c.n = c.old]
     [] c.op = "remove_child" ->
          LET e == (IF c.old \notin Range(S.kids[c.r]) THEN {NOTFOUND} ELSE {})
